@@ -1313,4 +1313,152 @@ theorem unmarshal_encode (hleb : LebGoSpec) (v : VLA) (h : v.WF)
     have := htail [header v]
     simpa [hSM, List.append_assoc] using this
 
+/-! ## Marshal never panics: on every allocation that passes validation the sized buffer is
+    filled exactly (sorted or not) -/
+
+theorem slot_cons (l : Layer) (L : List Layer) (s k : Nat) :
+    slot (l :: L) s k = if (l.stream == (s : Int) && l.spatial == (k : Int)) then some l else slot L s k := by
+  unfold slot
+  rw [List.find?_cons]
+  cases (l.stream == (s : Int) && l.spatial == (k : Int)) <;> rfl
+
+theorem tableOrder_length_aux : ∀ (L : List Layer) (N : Nat),
+    (∀ l ∈ L, 0 ≤ l.stream ∧ 0 ≤ l.spatial ∧ l.spatial < 4 ∧ lkey l < N) →
+    L.Pairwise (fun a b => ¬ SameSlot a b) →
+    ((List.range N).filterMap (fun i => slot L (i / 4) (i % 4))).length = L.length := by
+  intro L
+  induction L with
+  | nil =>
+    intro N _ _
+    have : (List.range N).filterMap (fun i => slot [] (i / 4) (i % 4)) = [] := by
+      rw [List.filterMap_eq_nil_iff]; intro i _; rfl
+    rw [this]
+  | cons l L ih =>
+    intro N hw hp
+    obtain ⟨hpl, hpL⟩ := List.pairwise_cons.mp hp
+    have hl := hw l (by simp)
+    have ih' := ih N (fun x hx => hw x (by simp [hx])) hpL
+    have hhit : ∀ i, (l.stream == ((i / 4 : Nat) : Int) && l.spatial == ((i % 4 : Nat) : Int)) = true ↔ lkey l = i := by
+      intro i; unfold lkey; simp only [Bool.and_eq_true, beq_iff_eq]; omega
+    have hsplit : List.range N = List.range' 0 (lkey l) ++ lkey l :: List.range' (lkey l + 1) (N - (lkey l + 1)) := by
+      rw [List.range_eq_range']
+      have e1 : N = lkey l + ((N - (lkey l + 1)) + 1) := by omega
+      conv => lhs; rw [e1]
+      rw [← List.range'_append_1, Nat.zero_add, List.range'_succ]
+    have hne : ∀ i, i ≠ lkey l → slot (l :: L) (i / 4) (i % 4) = slot L (i / 4) (i % 4) := by
+      intro i hi
+      rw [slot_cons]
+      have : (l.stream == ((i / 4 : Nat) : Int) && l.spatial == ((i % 4 : Nat) : Int)) = false := by
+        rw [Bool.eq_false_iff]; intro h; exact hi ((hhit i).mp h).symm
+      rw [this]; simp only [Bool.false_eq_true, if_false]
+    have hat : slot (l :: L) (lkey l / 4) (lkey l % 4) = some l := by
+      rw [slot_cons, (hhit (lkey l)).mpr rfl]; rfl
+    have hnone : slot L (lkey l / 4) (lkey l % 4) = none := by
+      unfold slot
+      apply find?_eq_none_of
+      intro x hx
+      rw [Bool.eq_false_iff]
+      intro hh
+      simp only [Bool.and_eq_true, beq_iff_eq] at hh
+      apply hpl x hx
+      unfold SameSlot
+      have := (hhit (lkey l)).mpr rfl
+      simp only [Bool.and_eq_true, beq_iff_eq] at this
+      omega
+    rw [hsplit] at ih' ⊢
+    simp only [List.filterMap_append, List.filterMap_cons, hat, hnone, List.length_append,
+      List.length_cons] at ih' ⊢
+    have c1 : (List.range' 0 (lkey l)).filterMap (fun i => slot (l :: L) (i / 4) (i % 4)) =
+        (List.range' 0 (lkey l)).filterMap (fun i => slot L (i / 4) (i % 4)) :=
+      filterMap_congr' (fun i hi => hne i (by have := List.mem_range'_1.mp hi; omega))
+    have c2 : (List.range' (lkey l + 1) (N - (lkey l + 1))).filterMap (fun i => slot (l :: L) (i / 4) (i % 4)) =
+        (List.range' (lkey l + 1) (N - (lkey l + 1))).filterMap (fun i => slot L (i / 4) (i % 4)) :=
+      filterMap_congr' (fun i hi => hne i (by have := List.mem_range'_1.mp hi; omega))
+    rw [c1, c2]
+    omega
+
+theorem tableOrder_length (layers : List Layer) (count : Int)
+    (hw : ∀ l ∈ layers, LayerOk count l) (hp : layers.Pairwise (fun a b => ¬ SameSlot a b)) :
+    (tableOrder count.toNat layers).length = layers.length := by
+  rw [tableOrder_flat]
+  apply tableOrder_length_aux _ _ _ hp
+  intro l hl
+  have := hw l hl
+  unfold LayerOk at this; unfold lkey
+  omega
+
+theorem tlLoop_length : ∀ (L : List Layer) (idx : Nat) (cur : UInt8) (done : Bytes), idx ≤ 4 →
+    (tlLoop L idx cur done).length =
+      done.length + 1 + (if L = [] then 0 else (idx + L.length - 1) / 4) := by
+  intro L
+  induction L with
+  | nil => intro idx cur done _; simp [tlLoop]
+  | cons l rest ih =>
+    intro idx cur done hi
+    unfold tlLoop
+    by_cases h4 : idx ≥ 4
+    · simp only [h4, if_true]
+      rw [ih 1 _ _ (by omega)]
+      cases rest with
+      | nil => simp; omega
+      | cons a r => simp; omega
+    · simp only [h4, if_false]
+      rw [ih (idx + 1) _ _ (by omega)]
+      cases rest with
+      | nil => simp; omega
+      | cons a r => simp; omega
+
+/-- every allocation that passes validation is marshalled into exactly `requiredLen` bytes -/
+theorem marshal_ok_of_valid (v : VLA) (hc : 1 ≤ v.count ∧ v.count ≤ 4) (hr : 0 ≤ v.rid ∧ v.rid < v.count)
+    (hp : preprocess v.count v.layers [] = none) : ∃ b, marshal v = .ok b := by
+  obtain ⟨hall, hpw⟩ := (preprocess_none_iff v.count v.layers []).mp hp
+  have hcount : (decide (v.count ≤ 0) || decide (v.count > 4)) = false := by
+    simp only [Bool.or_eq_false_iff, decide_eq_false_iff_not]; omega
+  have hrid : (decide (v.rid < 0) || decide (v.rid ≥ v.count)) = false := by
+    simp only [Bool.or_eq_false_iff, decide_eq_false_iff_not]; omega
+  have htab := tableOrder_length v.layers v.count (fun l hl => (hall l hl).1) hpw
+  simp only [marshal, hcount, hrid, hp, Bool.false_eq_true, if_false]
+  refine ⟨_, fit_exact _ _ _ rfl ?_⟩
+  simp only [requiredLen, encodedRates_lengths, tdiv_len, List.length_cons, List.length_append,
+    tlLoop_length _ 0 0 [] (by omega), List.length_nil, htab]
+  have e1 : ((commonSLBM ((List.range v.count.toNat).map (slMB v.layers)) != 0)) =
+      !(commonSLBM ((List.range v.count.toNat).map (slMB v.layers)) == 0) := rfl
+  rw [e1]
+  have hr5 : (List.map (fun a => (resBytes a).length) v.layers).sum = v.layers.length * 5 := by
+    rw [← List.length_flatMap]; exact flatMap_resBytes_length _
+  have htl0 : (if tableOrder v.count.toNat v.layers = [] then 0
+      else (0 + v.layers.length - 1) / 4) = (v.layers.length - 1) / 4 := by
+    split
+    · rename_i he
+      have : v.layers.length = 0 := by rw [← htab, he]; rfl
+      rw [this]
+    · simp
+  rw [htl0]
+  cases hcm : (commonSLBM ((List.range v.count.toNat).map (slMB v.layers)) == 0) with
+  | true =>
+    cases hh : v.hasRes with
+    | false => simp [maskBytes_length] <;> omega
+    | true => simp [maskBytes_length] <;> omega
+  | false =>
+    cases hh : v.hasRes with
+    | false => simp <;> omega
+    | true => simp <;> omega
+
+theorem marshal_ne_panic (v : VLA) : marshal v ≠ .panic := by
+  by_cases hc : v.count ≤ 0 ∨ v.count > 4
+  · have : (decide (v.count ≤ 0) || decide (v.count > 4)) = true := by simpa using hc
+    simp [marshal, this]
+  by_cases hr : v.rid < 0 ∨ v.rid ≥ v.count
+  · have h1 : (decide (v.count ≤ 0) || decide (v.count > 4)) = false := by simpa using hc
+    have : (decide (v.rid < 0) || decide (v.rid ≥ v.count)) = true := by simpa using hr
+    simp [marshal, h1, this]
+  cases hp : preprocess v.count v.layers [] with
+  | some e =>
+    have h1 : (decide (v.count ≤ 0) || decide (v.count > 4)) = false := by simpa using hc
+    have h2 : (decide (v.rid < 0) || decide (v.rid ≥ v.count)) = false := by simpa using hr
+    simp [marshal, h1, h2, hp]
+  | none =>
+    obtain ⟨b, hb⟩ := marshal_ok_of_valid v (by omega) (by omega) hp
+    rw [hb]; simp
+
 end Rtp.Model.Vla
